@@ -260,3 +260,23 @@ fn c03_3a_static_shared_state_roundtrip() {
     assert!(sh.state() == s, "C03.3a: the handle reports exactly the state the sound stored");
     kani::cover!(s == PlaybackState::WaitingToResume);
 }
+
+// @ob id=C04.9b strength=bounded tier=quick timeout=800 bound="3 symbolic frames, sample rate 1, no slice; one seek_by command with a negative or positive whole amount" fn=sound/static_sound/sound.rs::StaticSound::{seek_by,seek_to_index,read_commands}
+// @req a freshly built sound (its transport has already run ahead by the three pre-filled frames and rests at frame 3); the handle issues seek_by(-2.0) or seek_by(+1.0)
+// @ens the transport lands on current position + amount (in frames at sample rate 1): 1 resp. 4; a seek beyond the end leaves it stopped; the seek is applied once
+#[kani::proof]
+#[kani::unwind(8)]
+fn c04_9b_seek_by_is_relative_to_the_transport() {
+    let src = any_frames3();
+    let (mut s, mut h) = build(src, StaticSoundSettings::new(), None);
+    assert!(s.transport.position == 3 && !s.transport.playing, "C04.9b: after the pre-fill the transport rests at the end of a 3-frame sound");
+    let back: bool = kani::any();
+    h.seek_by(if back { -2.0 } else { 1.0 });
+    s.on_start_processing();
+    assert!(s.transport.position == if back { 1 } else { 4 }, "C04.9b: seek_by moves the transport by the requested amount");
+    assert!(!s.transport.playing, "C04.9b: a seek never restarts a stopped transport");
+    s.on_start_processing();
+    assert!(s.transport.position == if back { 1 } else { 4 }, "C07.2: the seek is not applied twice");
+    kani::cover!(back);
+    core::mem::forget(s); core::mem::forget(h);
+}
